@@ -58,6 +58,22 @@ unit("str.kmp.next.safe",
               dict(M_STALE_I, expect="postcondition"),
               mut("fallback-off-by-one", "string.c", "                j = lookup[j - 1];\n            } else {\n                i++;", "                j = lookup[j];\n            } else {\n                i++;", "loop_invariant|decreases|pointer")])
 
+# ------------------------------------------------------------------ buffer.c registered C functions
+ALLOC = ("realloc model (seq_common.h): fails or returns a fresh block of n bytes, frees the old block, "
+         "keeps the element at the ghost index; all other content arbitrary")
+BC = dict(src=["buffer.c"], link=["wrap.c"], harness=["str_buffer_cfun.c"], defines=["-DSEQ_ELEM_BYTES", "-DSEQ_TRACK_REALLOC"])
+BCA = [ALLOC, "memcpy/memmove/memset models (seq_common.h): ranges must be valid (memcpy: disjoint) - counted obligations; pointwise effect on the ghost element",
+       "capi.c getters are stubs: slot 0 is a well-formed buffer, the byte view is the buffer itself or a separate readable block, integer slots return the slot's low 32 bits, number slots the slot's double, each asserts slot index < argc; janet_arity/janet_fixarity return only for an accepted argc",
+       "janet_gcalloc returns a fresh block; janet_gcpressure has no effect on the buffer"]
+HALF = "janet_gethalfrange replaced by its contract (proved in seq.capi.gethalfrange) incl. its precondition length < INT32_MAX: buffers/sources of exactly INT32_MAX bytes excluded"
+unit("str.cfun.buffer.blit",
+     "buffer/blit, every size and all 2..5 argument combinations incl. nil, negative indices, src == dest and src-end before src-start: the copied length is max(0, src-end - src-start) - never negative; raises instead of exceeding INT32_MAX; dest = old prefix ++ src[src-start, +n) (source bytes as before the call) ++ old tail, length max(old, dest-start + n); memmove/memcpy inside both objects (memcpy never on overlapping ranges); foreign memory never reallocated; returns dest",
+     "h_cfun_buffer_blit", "cfun_buffer_blit/cfun_buffer_blit_c", assumes=BCA + [HALF], cbmc=["--sat-solver", "cadical"], timeout=300, **BC,
+     mutants=[mut("no-negative-clamp", "buffer.c", "        if (length_src < 0) length_src = 0;\n", "", "memcpy model|memmove model|postcondition|overflow|conversion"),
+              mut("same-buf-memcpy", "buffer.c", "memmove(dest->data + offset_dest, src.bytes + offset_src, length_src);", "memcpy(dest->data + offset_dest, src.bytes + offset_src, length_src);", "memcpy model"),
+              mut("stale-src-after-realloc", "buffer.c", "            src.bytes = dest->data;\n", "", "memmove model|pointer|postcondition"),
+              mut("no-range-check", "buffer.c", "    if (last > INT32_MAX)\n        janet_panic(\"buffer blit out of range\");\n", "", "conversion|overflow|postcondition")])
+
 json.dump({"defaults": {"props": ["C17"], "mode": "dfcc", "timeout": 120, "object_bits": 8, "checks": CHECKS}, "units": units},
           open(os.path.join(V, "units", "C17_str.json"), "w"), indent=1)
 print(len(units), "units")
